@@ -1,6 +1,7 @@
 import Driver.Common
 import Lean.Elab.Deriving.FromToJson
 import Canine.Mint.Model
+import Canine.Query.Mint
 open Lean (Json FromJson ToJson fromJson? toJson)
 namespace Canine.Mint
 deriving instance FromJson, ToJson for Params
@@ -15,7 +16,21 @@ def check (j : Json) : Except String (Option String) := do
   let post : State ← getField j "post" >>= fromJson?
   let p : Params ← getField j "params" >>= fromJson?
   let (m, _) := blockMint p pre
-  return allSome [cmpField "last" m.last post.last, cmpField "supply" m.supply post.supply,
+  -- the query server, asked inside this block (when the record carries its answers)
+  let qd : Option String :=
+    match j.getObjVal? "queries" with
+    | .ok qj =>
+      let infl := (qj.getObjValAs? Int "inflation").toOption
+      let atH := (qj.getObjValAs? Int "mintedAtH").toOption
+      let atPrev := (qj.getObjValAs? Int "mintedPrev").toOption
+      allSome [
+        (match infl with
+          | some v => cmpField "query.inflation" (Query.inflation p pre.last post.supply).raw v
+          | none => some "field=query.inflation impl=error"),
+        (match atH with | some v => cmpField "query.mintedTokens" (Query.mintedTokens post.last) v | none => none),
+        (match atPrev with | some v => cmpField "query.mintedTokensPrev" (Query.mintedTokens pre.last) v | none => none)]
+    | .error _ => none
+  return allSome [qd, cmpField "last" m.last post.last, cmpField "supply" m.supply post.supply,
     cmpField "stakers" m.stakers post.stakers, cmpField "dev" m.dev post.dev,
     cmpField "stipend" m.stipend post.stipend, cmpField "modBal" m.modBal post.modBal]
 
